@@ -63,6 +63,8 @@ def do(action):
         else:
             _thread.start_new_thread(body, (uid,))
         STARTED[uid].wait(60)
+    elif kind == "skip":
+        raise unittest.SkipTest("skips itself")
     elif kind == "finish":
         uid = action[1]
         GATES[uid].set()
